@@ -45,7 +45,43 @@ namespace options
     class user_input
     {
     public:
+        struct unchecked_t
+        {
+        };
+
+        /**
+         * Tokens that end up as positional arguments are taken verbatim and need not look like
+         * an option. The parser therefore reads argv unchecked and validates a token only when it
+         * is about to interpret it as an option.
+         */
+        user_input(const std::string& arg, unchecked_t) : arg_(arg)
+        {
+            split();
+        }
+
         user_input(const std::string& arg) : arg_(arg)
+        {
+            split();
+            validate();
+        }
+
+        void validate() const
+        {
+            if (!is_value() && !is_double_dash())
+            {
+                // one or two dashes followed by a non-empty name, i.e. "-{1,2}[^-=]+[^=]*(=.*)?"
+                // where the value may contain any character, including line breaks
+                auto dashes = arg_.find_first_not_of('-');
+
+                if (dashes == std::string::npos || dashes > 2 || arg_[dashes] == '=')
+                {
+                    raise<parsing_error>("The user input couldn't be parsed. (", arg_, ")");
+                }
+            }
+        }
+
+    private:
+        void split()
         {
             auto sep = arg_.find("=");
             if (sep != std::string::npos)
@@ -56,18 +92,6 @@ namespace options
             else
             {
                 name_ = arg_;
-            }
-
-            if (!is_value() && !is_double_dash())
-            {
-                // one or two dashes followed by a non-empty name, i.e. "-{1,2}[^-=]+[^=]*(=.*)?"
-                // where the value may contain any character, including line breaks
-                auto dashes = arg_.find_first_not_of('-');
-
-                if (dashes == std::string::npos || dashes > 2 || arg_[dashes] == '=')
-                {
-                    raise<parsing_error>("The user input couldn't be parsed. (", arg, ")");
-                }
             }
         }
 
